@@ -335,17 +335,24 @@ def malformed_harness(e):
 
     LZ.lreset()
     text = e.pick(MALFORMED, "text")
-    try:
-        ASTXpath(text)
-        outcome = "accepted"
-    except ASTXpathDefinitionError:
-        outcome = "definition-error"
-    except Exception as ex:  # noqa: BLE001
-        outcome = f"other:{type(ex).__name__}"
-    if outcome != "definition-error":
-        e.fail("malformed-xpath-not-rejected-with-definition-error", scenario={"text": text, "outcome": outcome})
+    # every construction of a malformed text is rejected, not only the first one in a process;
+    # a well-formed text constructed in between does not change that
+    outcomes = []
+    for attempt in ("first", "second", "after-a-well-formed-one"):
+        if attempt == "after-a-well-formed-one":
+            ASTXpath("//LLeaf")
+        try:
+            ASTXpath(text)
+            outcome = "accepted"
+        except ASTXpathDefinitionError:
+            outcome = "definition-error"
+        except Exception as ex:  # noqa: BLE001
+            outcome = f"other:{type(ex).__name__}"
+        outcomes.append(outcome)
+        if outcome != "definition-error":
+            e.fail("malformed-xpath-not-rejected-with-definition-error" + ("" if attempt == "first" else ":on-a-repeated-construction"), scenario={"text": text, "outcomes": outcomes})
     e.distinct(text)
-    return {"text": text, "outcome": outcome}
+    return {"text": text, "outcome": outcomes}
 
 
 def _x_runner(tier: str, seed: int, workers: int):
